@@ -896,6 +896,7 @@ type verifConnsRunner struct {
 	evOut   *os.File
 	opsOut  *os.File
 	nCases  int
+	shard   int
 	nOps    int
 	maxOps  int
 	started time.Time
@@ -928,7 +929,7 @@ func (r *verifConnsRunner) run(sc verifConnsScenario, record bool) ([]*verifConn
 	w := verifConnsNewWorld(r.c, def, &events)
 	defer w.close()
 	r.nCases++
-	w.caseName = fmt.Sprintf("%s#%d", sc.World, r.nCases)
+	w.caseName = fmt.Sprintf("%s#%d.%d", sc.World, r.shard, r.nCases)
 	w.s.state.Lock()
 	init := w.project(w.mgr.Repository())
 	w.s.state.Unlock()
@@ -1016,8 +1017,8 @@ func (vs *verifConnsSuite) TestVerifIfaceConns(c *C) {
 	if sh := os.Getenv("VERIF_SHARD"); sh != "" {
 		fmt.Sscanf(sh, "%d/%d", &shard, &nshards)
 	}
-	topIdx := 0
-	rng := rand.New(rand.NewSource(seed))
+	r.shard = shard
+	rng := rand.New(rand.NewSource(seed*1000 + int64(shard)))
 
 	worlds := []string{}
 	for name := range verifConnsWorlds {
@@ -1025,67 +1026,95 @@ func (vs *verifConnsSuite) TestVerifIfaceConns(c *C) {
 	}
 	sort.Strings(worlds)
 
-	// expand(prefix): run prefix+[op] fault-free for every enabled op, then with every fault point.
-	// Exhaustive up to exhaustDepth, seeded random descent below that up to depth, bounded by maxChanges.
-	var expand func(world string, prefix []verifConnsOp, after *verifConnsProj, level int)
-	expand = func(world string, prefix []verifConnsOp, after *verifConnsProj, level int) {
-		if level > depth || r.nOps >= maxChanges {
-			return
+	// Iterative deepening. Pass L records every scenario made of a fault-free prefix of L-1 changes (sometimes
+	// with one failed change in it: the restored state must be fully functional) followed by one change run
+	// fault-free and once per fault point. Passes up to exhaustDepth take every enabled op and every fault
+	// point; deeper passes sample (seeded). Bounded by maxChanges executed changes per process.
+	type probe struct {
+		ok    bool
+		after *verifConnsProj
+		clean *verifConnsOpResult
+	}
+	cache := map[string]*probe{}
+	runScenario := func(world string, seq []verifConnsOp, record bool) *probe {
+		key, _ := json.Marshal(seq)
+		ck := world + string(key)
+		if pr, ok := cache[ck]; ok && !record {
+			return pr
 		}
+		results, _ := r.run(verifConnsScenario{World: world, Ops: seq}, record)
+		if !record {
+			r.nOps += len(results) // probes are executed changes too (budget)
+		}
+		pr := &probe{}
+		if len(results) == len(seq) && results[len(results)-1].Status != "Rejected" {
+			pr.ok = true
+			pr.clean = results[len(results)-1]
+			pr.after = pr.clean.After
+		}
+		cache[ck] = pr
+		return pr
+	}
+	var expand func(wi int, world string, prefix []verifConnsOp, after *verifConnsProj, level, pass int)
+	expand = func(wi int, world string, prefix []verifConnsOp, after *verifConnsProj, level, pass int) {
 		ops := verifConnsEnabledOps(after)
-		if level > exhaustDepth {
+		sample := pass > exhaustDepth
+		if sample && level > 1 {
 			rng.Shuffle(len(ops), func(i, j int) { ops[i], ops[j] = ops[j], ops[i] })
 			if len(ops) > 2 {
 				ops = ops[:2]
 			}
 		}
-		for _, op := range ops {
+		for oi, op := range ops {
 			if r.nOps >= maxChanges {
 				return
 			}
-			if level == 1 {
-				topIdx++
-				if topIdx%nshards != shard {
-					continue
-				}
-			}
-			seq := append(append([]verifConnsOp{}, prefix...), op)
-			results, _ := r.run(verifConnsScenario{World: world, Ops: seq}, true)
-			clean := results[len(results)-1]
-			if len(results) != len(seq) || clean.Status == "Rejected" {
+			if level == 1 && (wi*100+oi)%nshards != shard {
 				continue
 			}
-			faults := verifConnsFaultsOf(clean, setupFaults, verifConnsSetupCounts(clean))
-			if level > exhaustDepth {
+			seq := append(append([]verifConnsOp{}, prefix...), op)
+			pr := runScenario(world, seq, level == pass)
+			if !pr.ok {
+				continue
+			}
+			faults := verifConnsFaultsOf(pr.clean, setupFaults, verifConnsSetupCounts(pr.clean))
+			if level < pass {
+				expand(wi, world, seq, pr.after, level+1, pass)
+				// sometimes continue below a failed change instead
+				if len(faults) > 0 && rng.Intn(4) == 0 && r.nOps < maxChanges {
+					fop := op
+					fop.Fault = faults[rng.Intn(len(faults))]
+					fseq := append(append([]verifConnsOp{}, prefix...), fop)
+					if fpr := runScenario(world, fseq, false); fpr.ok {
+						expand(wi, world, fseq, fpr.after, level+1, pass)
+					}
+				}
+				continue
+			}
+			if sample {
 				rng.Shuffle(len(faults), func(i, j int) { faults[i], faults[j] = faults[j], faults[i] })
-				if len(faults) > 3 {
-					faults = faults[:3]
+				if len(faults) > 4 {
+					faults = faults[:4]
 				}
 			}
-			var failedAfter *verifConnsProj
-			var failedSeq []verifConnsOp
 			for _, f := range faults {
 				if r.nOps >= maxChanges {
 					return
 				}
 				fop := op
 				fop.Fault = f
-				fseq := append(append([]verifConnsOp{}, prefix...), fop)
-				fres, _ := r.run(verifConnsScenario{World: world, Ops: fseq}, true)
-				if len(fres) == len(fseq) && failedAfter == nil {
-					failedAfter, failedSeq = fres[len(fres)-1].After, fseq
-				}
-			}
-			expand(world, seq, clean.After, level+1)
-			// also continue after one failed change (the restored state must be fully functional)
-			if failedAfter != nil && level+1 <= depth && rng.Intn(3) == 0 {
-				expand(world, failedSeq, failedAfter, level+1)
+				runScenario(world, append(append([]verifConnsOp{}, prefix...), fop), true)
 			}
 		}
 	}
+	inits := map[string]*verifConnsProj{}
 	for _, world := range worlds {
-		_, init := r.run(verifConnsScenario{World: world}, shard == 0)
-		expand(world, nil, init, 1)
+		_, inits[world] = r.run(verifConnsScenario{World: world}, shard == 0)
+	}
+	for pass := 1; pass <= depth; pass++ {
+		for wi, world := range worlds {
+			expand(wi, world, nil, inits[world], 1, pass)
+		}
 	}
 	fmt.Printf("VERIF-STATS cases=%d ops=%d wall=%.1fs times=%v\n", r.nCases, r.nOps, time.Since(r.started).Seconds(), verifConnsTimes)
 }
